@@ -281,7 +281,7 @@ def ts_inf(
         # We sample from one of the base models.
         # https://github.com/kchua/handful-of-trials/blob/master/dmbrl/controllers/MPC.py#L340
         dist = dynamics_model.base_distribution(
-            jnp.hstack((obs, act)), model_idx
+            jnp.hstack((obs, act))[jnp.newaxis], model_idx
         )
         delta_obs = dist.sample(seed=sampling_key)[0]
         obs = obs + delta_obs
